@@ -388,6 +388,28 @@ theorem eot_split_sign_lost (e : ℝ) (h : |e| < 1 / 4) :
   unfold eot_split
   simp only [hm, hm', z1, z2, pabs, abs_neg, and_self]
 
+/-- The whole function: the returned `(m, s)` are the minutes and seconds of
+    `E = 4·(L0 − 0.0057183° − α + Δψ·cos ε)` minutes of time, `L0` the mean longitude `eot_l0`, `α` the
+    right ascension brought to [0°, 360°), the bracket reduced by whole turns so that `|E| ≤ 720`
+    minutes: `|E| = |m| + s/60`, `0 ≤ s < 60` — the sign convention (apparent minus mean: `L0 − α`),
+    the aberration constant and the factor 4 min/degree as coded, for ALL inputs. -/
+theorem equation_of_time_value (jde alpha dpsi eps : ℝ) :
+    ∃ E : ℝ, (∃ n : ℤ, E = 4 * (eot_l0 jde - 0.0057183 - aToPositive alpha +
+        dpsi * Real.cos (eps * (Real.pi / 180)) - 360 * n)) ∧ -720 ≤ E ∧ E ≤ 720 ∧
+      |E| = |(((equation_of_time jde alpha dpsi eps).1 : ℤ) : ℝ)| + (equation_of_time jde alpha dpsi eps).2 / 60 ∧
+      0 ≤ (equation_of_time jde alpha dpsi eps).2 ∧ (equation_of_time jde alpha dpsi eps).2 < 60 := by
+  unfold equation_of_time
+  obtain ⟨l, u, n, hn⟩ := eot_reduction (eot_raw (eot_l0 jde) (aToPositive alpha) dpsi eps)
+  obtain ⟨s0, s1, hrec, _⟩ := eot_split_recombine (eot_reduce (eot_raw (eot_l0 jde) (aToPositive alpha) dpsi eps))
+  refine ⟨eot_reduce (eot_raw (eot_l0 jde) (aToPositive alpha) dpsi eps) * 4, ⟨n, ?_⟩, by linarith, by linarith, hrec, s0, s1⟩
+  rw [hn]; unfold eot_raw pcos pradians; ring
+
+/-- The two halves of the formula pull in opposite directions: a larger right ascension makes the
+    equation of time smaller, a larger mean longitude makes it larger (sign convention
+    "apparent minus mean time"), before the reduction by whole turns. -/
+example (l0 a d e : ℝ) : eot_raw l0 (a + 1) d e = eot_raw l0 a d e - 1 ∧ eot_raw (l0 + 1) a d e = eot_raw l0 a d e + 1 := by
+  unfold eot_raw; constructor <;> ring
+
 /-! ## Sunrise and sunset (Epoch.rise_set) -/
 
 /-- "sunrise before local transit before sunset": whenever `rise_set` gets as far as returning
@@ -417,6 +439,32 @@ theorem rise_order (ejde : ℝ) (leap : Int) (lat lon alt jt om c : ℝ)
       _ = 180 := by field_simp
   refine ⟨neg_le_of_abs_le hc1, le_of_abs_le hc1, hom', h0, h180, ?_, ?_, ?_⟩ <;>
     (unfold rise_set_args; simp only; norm_num; try linarith)
+
+/-- "ValueError if latitude outside the ±66d 33' range": the guard, for EVERY other argument —
+    refused strictly beyond ±66.55° (= 66°33'), the boundary value itself being accepted
+    (`rise_set_no_solution_iff` covers |φ| ≤ 66.55°). -/
+theorem rise_latitude_guard (ejde : ℝ) (leap : Int) (lat lon alt : ℝ) (h : 66.55 < lat ∨ lat < -66.55) :
+    rise_set_core ejde leap lat lon alt = .error .valueError := by
+  have t1 : (plt rise_limit lat || plt lat (aNeg rise_limit)) = true := by
+    rw [aNeg_rise_limit, rise_limit_val]; unfold plt
+    simp only [Bool.or_eq_true, decide_eq_true_eq]; exact h
+  unfold rise_set_core
+  simp only [t1, if_true]
+
+/-- A negative height is a `ValueError` (`sqrt` of a negative number: "math domain error") for every
+    accepted latitude, date and longitude. -/
+theorem rise_negative_height (ejde : ℝ) (leap : Int) (lat lon alt : ℝ) (hlat : |lat| ≤ 66.55) (halt : alt < 0) :
+    rise_set_core ejde leap lat lon alt = .error .valueError := by
+  have hl := abs_le.mp hlat
+  have t1 : (plt rise_limit lat || plt lat (aNeg rise_limit)) = false := by
+    rw [aNeg_rise_limit, rise_limit_val]; unfold plt
+    simp only [Bool.or_eq_false_iff, decide_eq_false_iff_not, not_lt]
+    constructor <;> linarith [hl.1, hl.2]
+  have t3 : plt alt 0.0 = true := by
+    unfold plt; simp only [decide_eq_true_eq]; norm_num; exact halt
+  unfold rise_set_core
+  simp only [t1, t3, Bool.false_eq_true, if_false, if_true]
+  split_ifs <;> rfl
 
 /-- For which (latitude, day) the sunrise equation has no solution — the listed midnight-sun finding,
     characterised through the model's OWN solar declination `rise_delta` (the sunrise equation's
